@@ -75,12 +75,12 @@ class Keccak(object):
         S = State(self.w)
         # set rate (a rate given here applies to this call only):
         r0 = self.r
-        if r is None:
-            assert self.r
-            r = self.r
-        else:
-            self.setrate(r)
         try:
+            if r is None:
+                assert self.r
+                r = self.r
+            else:
+                self.setrate(r)
             #Absorbing phase
             for Pi in self.iterblocks(M,bitlen):
                 Ps = State(self.w).load(Pi)
